@@ -204,7 +204,7 @@ def pre_decide(ae: int, o1: int, o2: int, ct: int, preset: int, head: bool, k: i
 
 @harness(
     pre=pre_decide,
-    quick=dict(T=2, H=0, timeout=150, reach_timeout=60),
+    quick=dict(T=2, H=0, timeout=150, reach_timeout=150),
     thorough=dict(T=6, H=1, timeout=1500, reach_timeout=90),
     nshards=dict(quick=12, thorough=12),
     reach=["encoded", "identity", "gzip_mentioned_by_solver"],
@@ -217,6 +217,8 @@ def pre_decide(ae: int, o1: int, o2: int, ct: int, preset: int, head: bool, k: i
 def h_gzip_decide(ae: int, o1: int, o2: int, ct: int, preset: int, head: bool, k: int, streamed: bool):
     """The compression decision: Accept-Encoding (solver-chosen characters), content type,
     pre-set Content-Encoding / Vary, body just below / at the threshold, buffered vs streamed."""
+    if P.reach in ("encoded", "gzip_mentioned_by_solver") and not (ae == 1 and preset == 0 and ct == 0 and k == 3):
+        return      # reach-twin steering only (a necessary condition for the tag keeps the twin cheap)
     ct = DEC_CT[ct]
     pfx = AE_PREFIX[ae]
     value = None if pfx is None else pfx + chr(o1) + chr(o2)
